@@ -309,3 +309,29 @@ def c01_two_systems(ctx, dim):
     ctx.ensure("held system: voxel(coordinate(v + theta)) == v", eq(list(cs.voxel(cs.coordinate(np.array([v[m] + th[m] for m in range(dim)])))), list(v)))
     for m in range(dim):
         ctx.ensure(f"held system: voxel size of Cartesian axis for matrix axis {m} is its image's", eq(cs.voxel_size["xyz"[SPEC[dim][m][0]]], d[m] / n[m]))
+
+
+
+@ob("C01.large_batch", kind="B", cases=[dict(dim=2, n=65537), dict(dim=2, n=(1 << 20) + 391040), dict(dim=3, n=(1 << 20) + 1), dict(dim=1, n=(1 << 21) + 7)], funcs=FUNCS, samples=(1, 1), tol=1e-9,
+    cite="a voxel index maps to origin plus voxel index times voxel size ... for single points, batches and the typed point classes",
+    note="bounded, vectorised: batches around and above 2^16 / 2^20 rows (nothing in the symbolic obligations depends on the batch length, which is 1-3 there): every row of the "
+         "batch equals the single-point conversion formula, the round trip through voxel() returns the indices (after seed C01_m: block-wise conversion dropping the remainder)")
+def c01_large_batch(ctx, dim, n):
+    rng = np.random.default_rng(ctx.rng.randrange(1 << 30))
+    shape = [int(x) for x in rng.integers(3, 40, dim)]
+    d = [float(x) for x in rng.uniform(0.5, 4.0, dim)]
+    o = [float(x) for x in rng.uniform(-3.0, 3.0, dim)]
+    img = darsia.Image(np.zeros(shape), space_dim=dim, scalar=True, dimensions=list(d), origin=list(o))
+    cs = img.coordinatesystem
+    vox = rng.integers(-5, 45, (n, dim))
+    got = np.asarray(cs.coordinate(vox), dtype=float)
+    want = np.empty((n, dim))
+    for m, (ax, sg) in enumerate(SPEC[dim]):
+        want[:, ax] = o[ax] + sg * vox[:, m] * (d[m] / shape[m])
+    ctx.ensure(f"every one of the {n} rows == origin + sign * voxel * voxel size", got.shape == (n, dim) and bool(np.allclose(got, want, rtol=1e-12, atol=1e-9)))
+    rows = [0, n // 2, n - 1, n - 2, (1 << 20) % n, ((1 << 20) + 1) % n]
+    ctx.ensure("rows of the batch == single-point conversion", all(bool(np.allclose(np.asarray(cs.coordinate(vox[r]), dtype=float), got[r], rtol=1e-12, atol=1e-9)) for r in rows))
+    centres = np.asarray(cs.coordinate(vox + 0.5), dtype=float)
+    back = np.asarray(cs.voxel(centres))
+    ctx.ensure("voxel(coordinate(v + 1/2)) == v for every row", back.shape == (n, dim) and bool(np.array_equal(back, vox)))
+    ctx.tick()
